@@ -1,6 +1,7 @@
 package props
 
 import (
+	"bytes"
 	"encoding/json"
 	"errors"
 	"fmt"
@@ -949,6 +950,10 @@ func c03Streams(first int) []string {
 
 var c03Corrupt = []byte{']', '}', '[', '{', ',', ':', '"', 'x', ' ', '0'}
 
+// the quick tier's further corruption bytes (the thorough tier takes all 256): controls, DEL, bytes that are not UTF-8 or start a
+// longer sequence, and the ASCII bytes that mean something inside a JSON token
+var c03CorruptQuick = []byte{0x00, 0x08, 0x0b, 0x0c, 0x1e, 0x1f, 0x7f, 0x80, 0xbf, 0xc0, 0xc2, 0xe2, 0xef, 0xf0, 0xfe, 0xff, 'e', 'E', '-', '+', '.', '\\', 'u', '/', 't', 'n', '1', '9', '\t', '\n', '\r', '\''}
+
 func c03Stream(c *fw.Ctx, data string, thorough bool) {
 	bound := 2
 	if thorough {
@@ -1022,8 +1027,33 @@ func c03Stream(c *fw.Ctx, data string, thorough bool) {
 				c.Do(func() any { return ob }, func() *fw.Violation { _, v := c03Run(c, ob, &cex, sched); return v })
 			}
 		}
-		// (iv) single-byte corruptions: replacement and insertion
+		// (iv) single-byte corruptions: replacement and insertion - the structural bytes with every schedule of the explorer, every
+		// other byte value (controls such as 0x1e, DEL, bytes that are not UTF-8) under the default schedule and one byte per Read
 		for k := 0; k <= len(data); k++ {
+			for bv := 0; bv < 256; bv++ {
+				b := byte(bv)
+				if bytes.IndexByte(c03Corrupt, b) >= 0 || (!thorough && (prog != 0 || bytes.IndexByte(c03CorruptQuick, b) < 0)) {
+					continue
+				}
+				var variants []string
+				if k < len(data) && data[k] != b {
+					variants = append(variants, data[:k]+string([]byte{b})+data[k+1:])
+				}
+				variants = append(variants, data[:k]+string([]byte{b})+data[k:])
+				for _, d := range variants {
+					cex := c03Model(prog, d)
+					ob := &c03Case{Data: d, Prog: prog, AllChunk: true}
+					c.Do(func() any { return ob }, func() *fw.Violation { _, v := c03Run(c, ob, &cex, make([]int, len(d)+1)); return v })
+					if !thorough {
+						continue
+					}
+					sched := make([]int, len(d))
+					for i := range sched {
+						sched[i] = len(d) - i - 1
+					}
+					c.Do(func() any { return ob }, func() *fw.Violation { _, v := c03Run(c, ob, &cex, sched); return v })
+				}
+			}
 			for _, b := range c03Corrupt {
 				var variants []string
 				if k < len(data) && data[k] != b {
